@@ -162,6 +162,16 @@ CHECKS['C05'] = dict(
    note='Trusted: TLC, CommunityModules, g++; TeakDecodeTable.tla (frozen). Second words are sampled (4 per opcode); the byte-for-byte '
         'comparison of makedsp1 output is a direct file comparison made by the runner.',
    technique='TLA+ spec (decode table) + TLC validation of total assembler/disassembler dumps, buffer sweeps and firmware line records')
+CHECKS['C17'] = dict(
+   text='The complete observation vector of the machine is the modelled state; in the states fresh / fresh+Reset / history+Reset the '
+        'specification is in the single state FreshReset (a constant for everything but MMIO read-back). Recorded executions on '
+        'polluted heaps are validated by TLC, which computes the differing observation groups; the same history replayed after Reset '
+        'and on a fresh instance must coincide; two processes must produce identical streams; a component-level reset model is checked '
+        'exhaustively (what Reset covers vs what C17 demands).',
+   design_ref='5.17',
+   note='Trusted: TLC, CommunityModules, g++. Histories are sampled. One known finding (MMIO backing storage survives Reset) is listed '
+        'in known_findings.json; four further defects were repaired by fix: commits.',
+   technique='TLA+ spec (FreshReset state machine + component reset model) + TLC trace validation of complete observations')
 NOT_YET = {}
 def main():
     props = [json.loads(l)['id'] for l in open(os.path.join(V, 'properties.jsonl'))]
